@@ -67,6 +67,11 @@ def search(spec):
         cases, gores, model, bad = stress(ctx, ctx.harness, "thorough", "search", spec.get("shards", 8), 900)
         ctx.coverage["search_evaluations"] = len(cases)
         if not bad:
+            # no wrong result observed: look for the race itself
+            cases, gores, model, bad, hits = race_collect(ctx, spec, "quick")
+            if hits and not bad:
+                return race_replay(ctx, hits)[0]
+        if not bad:
             return None
         i = bad[0]
         return checklib.write_replay(ctx, "input", {"payload": cases[i], "readable": cases[i]},
@@ -78,12 +83,12 @@ def search(spec):
 RACE_DIRS = re.compile(r"/(parser|interpreter|scope)/[A-Za-z0-9_]+\.go:\d+")
 
 
-def race_run(ctx, spec, tier="quick"):
-    """thorough tier: the same stress under the race detector; reports with frames in
-    parser/, interpreter/ or scope/ are failures"""
+def race_collect(ctx, spec, tier="quick"):
     ctx.log("race: building the harness with -race")
     binp = checklib.go_build(ctx, out="harness-race", race=True)
     logp = os.path.join(ctx.work, "race")
+    for f in glob.glob(logp + ".*"):
+        os.remove(f)
     cases, gores, model, bad = stress(ctx, binp, tier, "race", spec.get("shards", 8), 1500,
                                       env_extra={"GORACE": f"log_path={logp} exitcode=0 history_size=3"})
     reports = []
@@ -95,17 +100,32 @@ def race_run(ctx, spec, tier="quick"):
     cov["race_evaluations"] = len(cases)
     cov["race_reports_total"] = len(reports)
     cov["race_reports_in_parser_interpreter_scope"] = len(hits)
+    other = sorted(set(m.group(0) for r in reports if r not in hits for m in re.finditer(r"/(engine[a-z/]*|stdlib|util|config)/[A-Za-z0-9_]+\.go:\d+", r)))
+    if other:
+        cov["race_reports_elsewhere_frames"] = other[:12]
     ctx.log(f"race: {len(cases)} cases, {len(reports)} reports, {len(hits)} with frames in parser/interpreter/scope, {len(bad)} disagreements")
+    return cases, gores, model, bad, hits
+
+
+def race_replay(ctx, hits):
+    frames = sorted(set(m.group(0) for r in hits for m in RACE_DIRS.finditer(r)))
+    rp = checklib.write_replay(ctx, "race", {"frames": frames[:40], "report": hits[0][:6000]},
+                               "no data race with frames in parser/, interpreter/, scope/", f"{len(hits)} race reports",
+                               f"./check {ctx.prop} --tier thorough", tag="race-report")
+    return rp, frames
+
+
+def race_run(ctx, spec, tier="quick"):
+    """thorough tier: the same stress under the race detector; reports with frames in
+    parser/, interpreter/ or scope/ are failures"""
+    cases, gores, model, bad, hits = race_collect(ctx, spec, tier)
     for i in bad[:2]:
         rp = checklib.write_replay(ctx, "input", {"payload": cases[i], "readable": cases[i]},
                                    model.get(i, ("MISSING", {}))[0], gores.get(i, "MISSING"),
                                    f"./check {ctx.prop} --replay <this file>", tag="race")
         checklib.violation(ctx, rp, f"(under -race) go={gores.get(i, 'MISSING')[:80]!r}")
     if hits:
-        frames = sorted(set(m.group(0) for r in hits for m in RACE_DIRS.finditer(r)))
-        rp = checklib.write_replay(ctx, "race", {"frames": frames[:40], "report": hits[0][:6000]},
-                                   "no data race with frames in parser/, interpreter/, scope/", f"{len(hits)} race reports",
-                                   f"./check {ctx.prop} --tier thorough", tag="race-report")
+        rp, frames = race_replay(ctx, hits)
         checklib.violation(ctx, rp, f"data race: {frames[0]}")
     checklib.write_evidence(ctx)
     return 1 if ctx.violations else 0
